@@ -196,10 +196,10 @@ func VerifC20_ReentrantSubscriber() {
 	zz.Reach("outer call returned")
 }
 
-// VerifC20_ConcurrentAPIDeep: two concurrent operations out of the nine that touch the shared
-// tables most (open push, close, pause, restart, subscribe/unsubscribe, block queued, transport
-// completion, new incoming request, validation update) with TWO pre-emptions per path.
+// VerifC20_ConcurrentAPIDeep: two concurrent operations out of the seven that touch the shared
+// tables most (open push, close, restart, subscribe/unsubscribe, block queued, new incoming
+// request, validation update) with TWO pre-emptions per path.
 //
 //verif:tier thorough
-//verif:opts race preempt=sync pb=2 sched=3 part0=9 part1=1 novalidate
-func VerifC20_ConcurrentAPIDeep() { verifConcurrent20(2, 0, 2, 3, 5, 9, 13, 14, 15, 16) }
+//verif:opts race preempt=sync pb=2 sched=3 part0=7 part1=1 novalidate
+func VerifC20_ConcurrentAPIDeep() { verifConcurrent20(2, 0, 2, 5, 9, 13, 15, 16) }
